@@ -517,6 +517,8 @@ func replayCase(sub string, raw json.RawMessage) string {
 			return "bad replay: " + err.Error()
 		}
 		return checkSync(c)
+	case strings.HasPrefix(sub, "size-ties"):
+		return replayTies(raw)
 	case strings.HasPrefix(sub, "size-"):
 		return replaySize(sub, raw)
 	case strings.HasPrefix(sub, "utf8-"):
@@ -560,6 +562,7 @@ func TestC03(t *testing.T) {
 	runFromJSON(t)
 	universeIntact(t, "fromjson")
 	runSize(t)
+	runTies(t)
 	runUTF8(t)
 }
 
